@@ -1,7 +1,7 @@
 #!/bin/bash
 # run.sh <module> <rel-pkg> <findings-file> <TestRegexp>  — runs a public-API reproducer as an overlay test
 set -e
-export GOFLAGS=-mod=mod GOPROXY=off GOSUMDB=off GOTOOLCHAIN=local
+export GOFLAGS=-mod=readonly GOPROXY=off GOSUMDB=off GOTOOLCHAIN=local
 mod=$1; rel=$2; file=$3; re=$4
 work=/verif/.work/findings; mkdir -p $work
 echo "{\"Replace\":{\"/repo/modules/$mod/$rel/zz_verif_finding_test.go\":\"$file\"}}" > $work/ov.json
